@@ -53,6 +53,47 @@ mod os {
     pub use super::inprocess::*;
 }
 
+/// Turns a received attachment into the endpoint the receiving type asks for. The in-process
+/// back-end knows whether an attachment is a sender or a receiver and answers `None` for the
+/// wrong kind (so that decoding fails with an error); the OS back-ends cannot tell and hand
+/// out an endpoint on whatever was attached.
+#[cfg(any(
+    feature = "force-inprocess",
+    target_os = "android",
+    target_os = "ios",
+    target_os = "wasi",
+    target_os = "unknown"
+))]
+pub(crate) mod attachment {
+    use super::os::{OsIpcReceiver, OsIpcSender, OsOpaqueIpcChannel};
+
+    pub fn to_sender(channel: &mut OsOpaqueIpcChannel) -> Option<OsIpcSender> {
+        channel.try_to_sender()
+    }
+
+    pub fn to_receiver(channel: &mut OsOpaqueIpcChannel) -> Option<OsIpcReceiver> {
+        channel.try_to_receiver()
+    }
+}
+#[cfg(not(any(
+    feature = "force-inprocess",
+    target_os = "android",
+    target_os = "ios",
+    target_os = "wasi",
+    target_os = "unknown"
+)))]
+pub(crate) mod attachment {
+    use super::os::{OsIpcReceiver, OsIpcSender, OsOpaqueIpcChannel};
+
+    pub fn to_sender(channel: &mut OsOpaqueIpcChannel) -> Option<OsIpcSender> {
+        Some(channel.to_sender())
+    }
+
+    pub fn to_receiver(channel: &mut OsOpaqueIpcChannel) -> Option<OsIpcReceiver> {
+        Some(channel.to_receiver())
+    }
+}
+
 pub use self::os::{channel, OsOpaqueIpcChannel};
 pub use self::os::{OsIpcChannel, OsIpcOneShotServer, OsIpcReceiver, OsIpcReceiverSet};
 pub use self::os::{OsIpcSelectionResult, OsIpcSender, OsIpcSharedMemory};
